@@ -26,9 +26,13 @@ def judge_book(ctx, prop, spec, targets, valuations, *, exact=False, err_exact=F
     sheets = book.sheets()
     import random as _random
     order_rng = _random.Random(len(valuations) * 7919 + len(targets))
+    prev_fresh = {}
     for vi, val in enumerate(valuations):
         ov = {(titles[s], *rc(a)): v for (s, a, v) in val}
         env_ = evalr.Env(spec, ov, now=now)
+        this_fresh = {}
+        if vi >= 1:
+            prev_fresh = last_fresh      # outcomes of the previous valuation on fresh Executors (empty when that one ran shared)
         # Every second valuation all targets are evaluated on ONE Executor (one instance of the generated class) in a shuffled
         # order, the others on a fresh Executor per target: state carried in the instance or the class between evaluations
         # (memo keyed by ==, cache that forgets a parameter) then shows as a disagreement with the reference.
@@ -44,7 +48,21 @@ def judge_book(ctx, prop, spec, targets, valuations, *, exact=False, err_exact=F
                 ex = pipeline.Executor().set_executed_class(class_object=book.cls)
                 if val:
                     ex.set_cells([pipeline.ncell(s, *rc(a), v) for (s, a, v) in val])
-                for (si, addr) in order:
+                # a SECOND Executor alive on the same class object, holding the previous valuation, is asked in between: each of the two
+                # answers from its own overrides (a cache or a size record on the class instead of the instance mixes them up)
+                ex_b, prev_val = None, valuations[vi - 1]
+                if prev_fresh:
+                    ex_b = pipeline.Executor().set_executed_class(class_object=book.cls)
+                    if prev_val:
+                        ex_b.set_cells([pipeline.ncell(s, *rc(a), v) for (s, a, v) in prev_val])
+                for k_, (si, addr) in enumerate(order):
+                    if ex_b is not None and k_ % 3 == 0 and (si, addr) in prev_fresh:
+                        ob = pipeline.guarded(lambda si=si, addr=addr: ex_b.get_cell(pipeline.ncell(si, *rc(addr))).value, 'evaluate')
+                        pf = prev_fresh[(si, addr)]
+                        r.count('second_executor_on_same_class_checks')
+                        if not ((ob.ok == pf.ok) and (not pf.ok or (type(ob.value) is type(pf.value) and (ob.value == pf.value or ob.value != ob.value)))):
+                            report(r, prop, None, {'formula': sheets[si]['cells'].get(addr), 'cell': addr, 'sheet': si, 'overrides': prev_val, 'spec': spec,
+                                                   'other_executor_overrides': val}, ob.brief(), pf.brief(), monitor='two-executors-one-class')
                     shared[(si, addr)] = pipeline.guarded(lambda si=si, addr=addr: ex.get_cell(pipeline.ncell(si, *rc(addr))).value, 'evaluate')
                 r.count('valuations_on_one_executor')
             except (KeyboardInterrupt, SystemExit):
@@ -67,6 +85,8 @@ def judge_book(ctx, prop, spec, targets, valuations, *, exact=False, err_exact=F
             scale = evalr.LAST['scale']      # numbers read by the reference: round-off of a differently ordered sum is of that scale
             pending_flags = flags
             out = shared[(si, addr)] if shared is not None else book.value(si, addr, val)
+            if shared is None:
+                this_fresh[(si, addr)] = out
             r.ev()
             case = {'formula': formula, 'cell': addr, 'sheet': si, 'overrides': val}
             if case_extra:
@@ -88,6 +108,7 @@ def judge_book(ctx, prop, spec, targets, valuations, *, exact=False, err_exact=F
                 report(r, prop, None, case, cons[formula], 'whole formula consumed', monitor='parser-conservation')
             if nontrivial is None or nontrivial(case, outs):
                 r.nt((formula, addr, repr(val), name if nontrivial is None else ''))
+        last_fresh = this_fresh
     return book
 
 
